@@ -103,7 +103,39 @@ pub(crate) fn run_command(
     hooks()?.run_command(cmdline, output)
 }
 
-pub(crate) fn order(ids: std::collections::HashSet<BuildId>) -> Vec<BuildId> {
+/// Collections of newly ready dependents the ordering hook accepts.
+pub(crate) trait Dependents {
+    /// The ids in iteration order, and whether that order is arbitrary (so
+    /// that the harness may choose any permutation).
+    fn into_ids(self) -> (Vec<BuildId>, bool);
+}
+impl Dependents for std::collections::HashSet<BuildId> {
+    fn into_ids(self) -> (Vec<BuildId>, bool) {
+        (self.into_iter().collect(), true)
+    }
+}
+impl Dependents for std::collections::BTreeSet<BuildId> {
+    fn into_ids(self) -> (Vec<BuildId>, bool) {
+        (self.into_iter().collect(), false)
+    }
+}
+impl Dependents for Vec<BuildId> {
+    fn into_ids(self) -> (Vec<BuildId>, bool) {
+        (self, false)
+    }
+}
+impl Dependents for std::collections::VecDeque<BuildId> {
+    fn into_ids(self) -> (Vec<BuildId>, bool) {
+        (self.into_iter().collect(), false)
+    }
+}
+
+pub(crate) fn order(ids: impl Dependents) -> Vec<BuildId> {
+    let (ids, arbitrary) = ids.into_ids();
+    if !arbitrary {
+        // The code under test fixed the order itself; leave it alone.
+        return ids;
+    }
     let mut v: Vec<usize> = ids.into_iter().map(|id| id.index()).collect();
     // Without a harness keep an arbitrary but fixed order.
     v.sort();
